@@ -132,8 +132,12 @@ func NewMux(lb *loadbalancer.LoadBalancer, cfg *config.Config, mc *metrics.Metri
 	if len(cfg.AdminAPI.IPAllowList) > 0 || len(cfg.AdminAPI.IPDenyList) > 0 {
 		ipFilter, err := NewIPFilter(cfg.AdminAPI.IPAllowList, cfg.AdminAPI.IPDenyList)
 		if err != nil {
-			logging.L().Error().Err(err).Msg("failed to create IP filter")
-			return mux
+			// Fail closed: a list that cannot be parsed must not result in an unfiltered API
+			logging.L().Error().Err(err).Msg("failed to create IP filter, refusing all admin api requests")
+			return http.HandlerFunc(func(w http.ResponseWriter, r *http.Request) {
+				w.WriteHeader(http.StatusForbidden)
+				_, _ = w.Write([]byte("Forbidden: admin API IP filter is misconfigured"))
+			})
 		}
 		logging.L().Info().
 			Int("allow_list_size", len(cfg.AdminAPI.IPAllowList)).
